@@ -68,6 +68,22 @@ SummPairOK(e) ==
          [] OTHER -> TRUE
 
 (* ---- C08 ---- *)
+(* covonly: data at an offset of 2^43 (2^14 in f32) times their spread, where only the covariance (whose error is second   *)
+(* order in the error of the mean) is judged; the correlation divides by standard deviations that are, legitimately, only  *)
+(* accurate to the unit roundoff times that condition number                                                              *)
+CovOnly(e) == Has(e, "covonly") /\ e.covonly
+PearOK(e) ==
+    LET nv == Len(e.rows) IN
+    /\ \A i, j \in 1..nv :
+          /\ Len(e.rows[1]) <= 5 => PearsonOK(e.rows[i], e.rows[j], e.pear[i][j], e.qe, e.tol)
+          /\ Abs(e.pear[i][j]) <= Q(e.qe) + e.tol
+          /\ Abs(e.pear[i][j] - e.pear[j][i]) <= e.tol
+    /\ \A i \in 1..nv : Abs(e.pear[i][i] - Q(e.qe)) <= e.tol           \* diagonal: one
+    \* unchanged by a positive affine rescaling of variable k, sign flip of row/column k under negation
+    /\ \A i, j \in 1..nv :
+          /\ ~Special(e.pear_scaled[i][j]) /\ Abs(e.pear_scaled[i][j] - e.pear[i][j]) <= e.tol
+          /\ ~Special(e.pear_neg[i][j])
+          /\ Abs(e.pear_neg[i][j] - (IF (i = e.k + 1) # (j = e.k + 1) THEN -e.pear[i][j] ELSE e.pear[i][j])) <= e.tol
 CorrOK(e) ==
     LET nv == Len(e.rows) IN
     /\ e.cov_out = "ok" /\ e.pear_out = "ok"
@@ -75,15 +91,8 @@ CorrOK(e) ==
           /\ ~Special(e.cov[i][j]) /\ ~Special(e.pear[i][j])
           /\ CovOK(e.rows[i], e.rows[j], e.S, e.d, e.cov[i][j], e.qe, e.tol)
           /\ Abs(e.cov[i][j] - e.cov[j][i]) <= e.tol                     \* symmetric
-          /\ Len(e.rows[1]) <= 5 => PearsonOK(e.rows[i], e.rows[j], e.pear[i][j], e.qe, e.tol)
-          /\ Abs(e.pear[i][j]) <= Q(e.qe) + e.tol
-          /\ Abs(e.pear[i][j] - e.pear[j][i]) <= e.tol
-    /\ \A i \in 1..nv : e.cov[i][i] >= -e.tol /\ Abs(e.pear[i][i] - Q(e.qe)) <= e.tol      \* diagonal: non-negative / one
-    \* unchanged by a positive affine rescaling of variable k, sign flip of row/column k under negation
-    /\ \A i, j \in 1..nv :
-          /\ ~Special(e.pear_scaled[i][j]) /\ Abs(e.pear_scaled[i][j] - e.pear[i][j]) <= e.tol
-          /\ ~Special(e.pear_neg[i][j])
-          /\ Abs(e.pear_neg[i][j] - (IF (i = e.k + 1) # (j = e.k + 1) THEN -e.pear[i][j] ELSE e.pear[i][j])) <= e.tol
+    /\ \A i \in 1..nv : e.cov[i][i] >= -e.tol                          \* diagonal: non-negative
+    /\ CovOnly(e) \/ PearOK(e)
 
 (* ---- C09 ---- *)
 IsFloatTy(e) == e.ty \in {"f32", "f64"}
@@ -181,6 +190,18 @@ KnownF10(e) ==
        THEN e.CE.c = "inf" /\ e.KL.c = "nan" /\ e.KLs.c = "nan"          \* the -inf of the overflowing quotient meets a genuine +inf term
        ELSE CEFinOK(e) /\ e.KL.c = "ninf" /\ e.KLs.c = "ninf"
 
+(* operands scaled by 2^dexp (floats, units of 1/4) or 10^dexp (integers) far towards the ends of the range: the squares of the *)
+(* differences leave the range, the differences do not.  l1, linf and the counts stay exact and symmetric; mean_abs_err is   *)
+(* l1 / n; towards the bottom of the range l2_dist stays finite and between 0 and l1                                         *)
+DevScaleOK(e) ==
+    LET isf == e.ty \in {"f32", "f64"} IN
+    /\ e.ceq = CountEq(e.a, e.b)
+    /\ e.l1q = L1(e.a, e.b) /\ e.linfq = Linf(e.a, e.b)
+    /\ e.l1s = e.l1q /\ e.linfs = e.linfq
+    /\ isf => /\ ((e.ty = "f64" /\ e.dexp > -1000) \/ (e.ty = "f32" /\ e.dexp > -100)) => e.maeq = e.l1q    \* (l1 / n is not exact among subnormals)
+              /\ e.l2c \in {"fin", "inf"}
+              /\ e.dexp < 0 => (e.l2c = "fin" /\ e.l2le)
+
 EventOK(e) ==
     CASE e.ev = "summ" -> (IF PROP = "C18" THEN SummPairOK(e)
                            ELSE IF PairOnly(e) THEN e.out = "ok" /\ AxisRelOK(e)
@@ -189,6 +210,7 @@ EventOK(e) ==
       [] e.ev = "corrpair" -> e.out = "ok" /\ (\A x \in DOMAIN e.rel : Abs(e.rel[x]) <= 4) /\ (\A x \in DOMAIN e.diag : Abs(e.diag[x]) <= 4)
       [] e.ev = "dev"  -> DevOK(e)
       [] e.ev = "devnan" -> DevNanOK(e)
+      [] e.ev = "devscale" -> DevScaleOK(e)
       [] e.ev = "ent"  -> EntOK(e)
       [] OTHER -> FALSE
 
